@@ -260,6 +260,11 @@ func (x *Exec) invoke(fr *Frame, pc *preparedCall, st *State, k func(*State, []V
 		return
 	}
 	name := funcFullName(pc.fn)
+	if g := metricsGhost(pc.recvExpr); g != "" {
+		if x.metricsModel(st, g, pc, k) {
+			return
+		}
+	}
 	if x.isNoop(name, pc) {
 		k(st, x.freshResults(st, pc.fn.Type().(*types.Signature), "noop"))
 		return
@@ -444,6 +449,79 @@ func (x *Exec) callMayWriteHeap(fr *Frame, c *ast.CallExpr) bool {
 		return li.heapWrite
 	}
 	return true
+}
+
+// metricsGhost: the two process-wide counters a user reads as "the cache's reported size and
+// entry count" are tracked as ghost integers (mbytes, mentries); every other metric is a no-op.
+func metricsGhost(recv ast.Expr) string {
+	if recv == nil {
+		return ""
+	}
+	se, ok := ast.Unparen(recv).(*ast.SelectorExpr)
+	if !ok {
+		return ""
+	}
+	g := map[string]string{"BytesCached": "mbytes", "CacheEntries": "mentries"}[se.Sel.Name]
+	if g == "" {
+		return ""
+	}
+	c, ok := ast.Unparen(se.X).(*ast.SelectorExpr)
+	if !ok || c.Sel.Name != "Cache" {
+		return ""
+	}
+	gl, ok := ast.Unparen(c.X).(*ast.SelectorExpr)
+	if !ok || gl.Sel.Name != "Global" {
+		return ""
+	}
+	if id, ok := gl.X.(*ast.Ident); !ok || id.Name != "metrics" {
+		return ""
+	}
+	return g
+}
+
+func (x *Exec) metricsModel(st *State, g string, pc *preparedCall, k func(*State, []Value)) bool {
+	cur := st.ghostInt(g)
+	arg := func() *Term {
+		if len(pc.args) == 1 {
+			if v, ok := pc.args[0].(IntV); ok {
+				return v.T
+			}
+		}
+		return nil
+	}
+	x.Trusted["metrics.Global.Cache.BytesCached / CacheEntries modelled as ghost integers (atomics.Int64 Add/Sub/Set/Increment/Decrement/Get on mathematical integers)"] = true
+	switch pc.fn.Name() {
+	case "Add":
+		if a := arg(); a != nil {
+			st.ghost[g] = IntV{Add(cur, a)}
+			k(st, x.freshResults(st, pc.fn.Type().(*types.Signature), "noop"))
+			return true
+		}
+	case "Sub":
+		if a := arg(); a != nil {
+			st.ghost[g] = IntV{Sub(cur, a)}
+			k(st, x.freshResults(st, pc.fn.Type().(*types.Signature), "noop"))
+			return true
+		}
+	case "Set", "Store":
+		if a := arg(); a != nil {
+			st.ghost[g] = IntV{a}
+			k(st, x.freshResults(st, pc.fn.Type().(*types.Signature), "noop"))
+			return true
+		}
+	case "Increment":
+		st.ghost[g] = IntV{Add(cur, IntLit(1))}
+		k(st, x.freshResults(st, pc.fn.Type().(*types.Signature), "noop"))
+		return true
+	case "Decrement":
+		st.ghost[g] = IntV{Sub(cur, IntLit(1))}
+		k(st, x.freshResults(st, pc.fn.Type().(*types.Signature), "noop"))
+		return true
+	case "Get", "Load":
+		k(st, []Value{IntV{cur}})
+		return true
+	}
+	return false
 }
 
 func (x *Exec) isNoop(name string, pc *preparedCall) bool {
@@ -850,7 +928,7 @@ func (x *Exec) callByContract(fr *Frame, pc *preparedCall, fc *FuncContract, nam
 		}
 	}
 	x.tsub = saved
-	x.assumeStable(fr, st, fc, pc)
+	x.assumeStable(fr, st, fc, pc, old)
 	k(st, results)
 }
 
@@ -1332,7 +1410,7 @@ func (x *Exec) holdsPre(fr *Frame, st *State, fc *FuncContract, name, site strin
 // callbacks it was constructed with; every such callback is verified to
 // preserve the predicates the caller declares "ghost stable <pred>", so they
 // hold again after the call.
-func (x *Exec) assumeStable(fr *Frame, st *State, fc *FuncContract, pc *preparedCall) {
+func (x *Exec) assumeStable(fr *Frame, st *State, fc *FuncContract, pc *preparedCall, pre *State) {
 	cbOnly := false
 	for _, g := range fc.Ghost {
 		if g == "callbacks-only" {
@@ -1355,6 +1433,19 @@ func (x *Exec) assumeStable(fr *Frame, st *State, fc *FuncContract, pc *prepared
 		return
 	}
 	for _, g := range cc.Ghost {
+		// "stable-if P": P is preserved by every callback (and by the callee's own ghost writes),
+		// so it holds after the call if it held before
+		if strings.HasPrefix(g, "stable-if ") && pre != nil {
+			e, err := ParseSpec(strings.TrimPrefix(g, "stable-if "))
+			if err != nil {
+				panic(x.unsupported("stable-if: " + err.Error()))
+			}
+			before := x.specBool(x.localEnv(fr, pre, pc.e), e)
+			after := x.specBool(x.localEnv(fr, st, pc.e), e)
+			st.assume(Implies(before, after))
+			x.Trusted["callback rule: predicates declared stable are re-assumed after calls to callbacks-only functions (their callbacks are verified to preserve them)"] = true
+			continue
+		}
 		if !strings.HasPrefix(g, "stable ") {
 			continue
 		}
